@@ -8,7 +8,7 @@ Require Import Sedpack.Model.Base Sedpack.Generated.GenIter Sedpack.Model.Iter S
 Require Import Sedpack.Model.PipeBase Sedpack.Generated.GenPipeline Sedpack.Proofs.PipelineProofs.
 Require Import Sedpack.Generated.GenLazyPool Sedpack.Model.LazyPool Sedpack.Proofs.LazyPoolInv Sedpack.Proofs.LazyPoolResult.
 From Coq Require Import Permutation.
-Require Sedpack.Model.Meta Sedpack.Proofs.IterateProofs.
+Require Sedpack.Model.Filler Sedpack.Model.Meta Sedpack.Proofs.IterateProofs.
 
 (** Shuffle buffer (paths and examples): for every buffer size >= 1, every sequence of random
     indices and every final shuffle, a full pass ends and yields a permutation of its input. *)
@@ -93,6 +93,21 @@ Theorem c02_iteration_yields_exactly_what_is_stored :
   Permutation (Meta.iterate fs info s) (flat_map (fun e => fst (snd e)) (filter (IterateProofs.under s) (Meta.shards fs))).
 Proof. exact IterateProofs.history_iterate_is_stored. Qed.
 Print Assumptions c02_iteration_yields_exactly_what_is_stored.
+
+(** Everything together for whole histories of the session model: unshuffled iteration of a split yields exactly what the sessions
+    stored for it — every shard every filler (alone or as a writer of a multi-writer call) closed for that split, each once; and
+    what one filler stores for a split is its accepted writes to that split in caller order, shifted by the session's payload offset. *)
+Theorem c02_every_history_delivers_exactly_what_was_written :
+  forall eps : nat, 1 <= eps -> forall (h : list Meta.session) (fs : Meta.fsT) (info : Meta.dinfo), Meta.run_history eps h = Meta.Ok (fs, info) ->
+  forall s : split, Permutation (Meta.iterate fs info (Filler.split_code s)) (IterateProofs.wrote_history eps 0 h s).
+Proof. exact IterateProofs.history_iterate_is_written. Qed.
+Print Assumptions c02_every_history_delivers_exactly_what_was_written.
+
+Theorem c02_a_filler_stores_its_accepted_writes :
+  forall eps : nat, 1 <= eps -> forall (b : nat) (ops : list Filler.wop) (s : split),
+    IterateProofs.wrote_filler eps b ops s = map (Nat.add b) (Filler.accepted s ops 0).
+Proof. exact IterateProofs.wrote_filler_accepted. Qed.
+Print Assumptions c02_a_filler_stores_its_accepted_writes.
 
 (** Non-vacuity with the concrete generator of the code (r*1664525+1013904223 mod 2^32). *)
 Theorem c02_nonvacuous :
